@@ -1761,6 +1761,11 @@ fn static_damage(r: &mut Rng, g: &mut Generated, profile: Profile) -> Option<&'s
                 (" \"é\\q\"; ", None, 0),
                 (" \"\\x\"; ", None, 0),
                 (" \"ab\\u{110000}\"; ", None, 0),
+                // bad escapes whose last character is multi-byte
+                (" \"\\é\"; ", None, 0),
+                (" \"ab\\€c\"; ", None, 0),
+                (" \"\\x4🦀\"; ", None, 0),
+                (" \"é\\u{é}\"; ", None, 0),
                 (" \"\r\né\\q\"; ", None, 0),
                 (" \"a\r\n\r\n☃\\x\"; ", None, 0),
             ];
